@@ -432,4 +432,22 @@ theorem parse_selfsig (t pa ha : Nat) (ss : Sig4.SelfSig) (critical : Bool) (g0 
   · rw [toSig_fields]
     cases hf : ss.flags <;> cases hk : ss.keyLifetime <;> simp [f1, f0, hf, hk]
 
+/-- VERSION 3 READ-BACK: the RFC 4880 §5.2.2 packet for (type, creation time, issuer, algorithms) parses to those values -/
+theorem parseV3_body (t c i pa ha g0 g1 : Nat) (mp : Bytes) (ms : List Pgp.MPI)
+    (hpa : pa = 1 ∨ pa = 3 ∨ pa = 17) (hha : hashKnown ha = true) (hc : c < 4294967296) (hi : i < 18446744073709551616)
+    (hm : readMPIs (mpiCount pa) mp = .ok ms) :
+    parseV3 (Sig4.bodyV3 t c i pa ha g0 g1 mp) = .ok ⟨t, c, i, pa, ha, [g0, g1], ms⟩ := by
+  have hb : Sig4.bodyV3 t c i pa ha g0 g1 mp =
+      3 :: 5 :: t :: (c / 16777216 % 256) :: (c / 65536 % 256) :: (c / 256 % 256) :: (c % 256) ::
+        (Sig4.be64 i ++ (pa :: ha :: g0 :: g1 :: mp)) := by
+    simp [Sig4.bodyV3, Sig4.be32]
+  have hc' : beNat [c / 16777216 % 256, c / 65536 % 256, c / 256 % 256, c % 256] = c := beNat_be32 c hc
+  have hpa' : (pa = 1 || pa = 3 || pa = 17) = true := by rcases hpa with h | h | h <;> simp [h]
+  rw [hb]
+  unfold parseV3
+  simp only [show ¬ ((3 : Nat) < 2 ∨ (3 : Nat) > 3) by omega, if_false, ne_eq, not_true_eq_false]
+  have hl : ¬ ((Sig4.be64 i ++ (pa :: ha :: g0 :: g1 :: mp)).length < 8) := by simp [be64_length]
+  rw [if_neg hl, List.take_left' (be64_length i), List.drop_left' (be64_length i)]
+  simp only [hpa', hha, Bool.not_true, Bool.false_eq_true, if_false, hm, beNat_be64 i hi, hc']
+
 end WhatIs.Lemmas.PgpSig
